@@ -90,7 +90,7 @@ deriving Repr
 /-- the body of `for line in log_info:` -/
 def Scan.step (s : Scan) (line : Str) : Scan :=
   if isBlank line then s else
-  let s := if isVersionLine line && !s.haveVersion then
+  let s := if isVersionLine line && (!s.haveVersion || !Gen.Log.versionOnlyIfUnset) then
       { s with versionLine := some line, haveVersion := true } else s
   let s :=
     if hasAny thermoStart line then
@@ -285,6 +285,12 @@ deriving DecidableEq, Repr
 
 def LogState.empty : LogState := {}
 
+/-- `if append is False:` — what is reset comes from the source. -/
+def LogState.reset (st : LogState) : LogState where
+  sims := if Gen.Log.resetSimulations then [] else st.sims
+  version := if Gen.Log.resetVersion then none else st.version
+  date := if Gen.Log.resetDate then none else st.date
+
 /-- the thermo tables found in `lines` (independent of the state). -/
 def thermoTables (sc : Scan) (lines : List Str) : Except Err (List Table) :=
   readBlocks (nonBlank lines) sc.thermoHeaders
@@ -292,7 +298,7 @@ def thermoTables (sc : Scan) (lines : List Str) : Except Err (List Table) :=
 
 /-- `Log.read(lines, append)` -/
 def readLog (st : LogState) (append : Bool) (lines : List Str) : Except Err LogState :=
-  let st := if append then st else LogState.empty
+  let st := if append then st else st.reset
   let sc := scan { haveVersion := st.version.isSome } lines
   let vd : Except Err (Option Str × Option Date) :=
     match sc.versionLine with
@@ -328,15 +334,16 @@ def minStep? : List α → Option Int
   | [] => none
   | r :: rs => some (match minStep? rs with | none => step r | some m => min (step r) m)
 
-/-- `pd.concat([merged, thermo[thermo.Step > merged.Step.max()]])` (comparison with NaN is False) -/
+/-- `pd.concat([merged, thermo[thermo.Step > merged.Step.max()]])` (comparison with NaN is False; the comparison
+    itself is `Gen.Log.firstKeep`, regenerated from the source) -/
 def mergeFirst (merged thermo : List α) : List α :=
   merged ++ thermo.filter (fun r => match maxStep? step merged with
-    | some m => decide (m < step r) | none => false)
+    | some m => Gen.Log.firstKeep (step r) m | none => false)
 
 /-- `pd.concat([merged[merged.Step < thermo.Step.min()], thermo])` -/
 def mergeLast (merged thermo : List α) : List α :=
   merged.filter (fun r => match minStep? step thermo with
-    | some m => decide (step r < m) | none => false) ++ thermo
+    | some m => Gen.Log.lastKeep (step r) m | none => false) ++ thermo
 
 /-- `pd.concat([merged, thermo])` -/
 def mergeAll (merged thermo : List α) : List α := merged ++ thermo
